@@ -853,3 +853,43 @@ Proof.
   pose proof (Hc a Ha) as Ia. pose proof (Hc b Hb) as Ib. cbn [In] in Ia, Ib.
   repeat (destruct Ia as [<-|Ia]); try contradiction; repeat (destruct Ib as [<-|Ib]); try contradiction; cbn; intros E; try reflexivity; discriminate.
 Qed.
+
+(* ------------------------------------------------------------------ front ends (round 8) *)
+Lemma front_good_inv : forall fr, front_goodb fr = true ->
+  fluent_obj fr = FFresh /\ ctor_default_compact fr = false /\ instance_flag fr = false.
+Proof.
+  intros fr H. unfold front_goodb in H. apply andb_true_iff in H. destruct H as [H H3].
+  apply andb_true_iff in H. destruct H as [H1 H2].
+  unfold instance_flag. destruct (fluent_obj fr); try discriminate.
+  destruct (ctor_default_compact fr); try discriminate.
+  destruct (instance_arg fr) as [[|]|]; try discriminate; auto.
+Qed.
+
+Lemma obtain_all_static_flag : forall fr, front_goodb fr = true -> forall cs st,
+  (st = None \/ st = Some false) -> (obtain_all fr st cs = None \/ obtain_all fr st cs = Some false).
+Proof.
+  intros fr G. destruct (front_good_inv fr G) as [Hf [Hc Hi]].
+  induction cs as [|c cs IH]; intros st Hst; [exact Hst|].
+  unfold obtain_all in *. cbn [fold_left]. apply IH.
+  destruct c as [flag|]; unfold obtain; rewrite ?Hf; cbn [fst]; [exact Hst|].
+  destruct Hst as [-> | ->]; cbn [fst]; rewrite ?Hi; auto.
+Qed.
+
+Lemma front_gives_requested : forall fr, front_goodb fr = true -> forall cs c,
+  snd (obtain fr (obtain_all fr None cs) c) = requested c.
+Proof.
+  intros fr G cs c. destruct (front_good_inv fr G) as [Hf [Hc Hi]].
+  destruct (obtain_all_static_flag fr G cs None (or_introl eq_refl)) as [E | E]; rewrite E;
+    destruct c as [flag|]; unfold obtain, requested; rewrite ?Hf, ?Hi; reflexivity.
+Qed.
+
+Lemma front_format_is_requested_format : forall cfg fr, front_goodb fr = true -> forall cs c m,
+  front_format cfg fr cs c m = json_format cfg (requested c) m.
+Proof. intros cfg fr G cs c m. unfold front_format. rewrite (front_gives_requested fr G). reflexivity. Qed.
+
+Definition shared_front : json_front := {| fluent_obj := FShared; ctor_default_compact := false; instance_arg := None |}.
+Lemma shared_front_refuted : exists cs, snd (obtain shared_front (obtain_all shared_front None cs) (CFluent true)) = false.
+Proof. exists [CFluent false]. reflexivity. Qed.
+Lemma shared_front_refuted_by_instance : exists cs, snd (obtain shared_front (obtain_all shared_front None cs) (CFluent true)) = false
+  /\ Forall (fun c => c = CInstance) cs.
+Proof. exists [CInstance]. split; [reflexivity | repeat constructor]. Qed.
